@@ -84,4 +84,101 @@ def Table.put (t : Table α) (v : α) : Except Fault (Table α × Nat) :=
     | .ok (t1, i) => .ok (t1.setBucket b i, i)
   else t.putLoop v t.vals.size idx
 
+/-! ### the same `put`, handing the table back on failure
+
+`putE` computes exactly what `put` computes, but returns the (unchanged) table together with the
+fault instead of dropping it.  Callers that own the table can then thread it through without
+keeping a second reference alive, so the arrays are updated in place.  `putE_eq` below ties it to
+`put`; the compiler is told to use it through `St.put_eq_putFast` (`@[csimp]`, a kernel-checked
+equation, not `implemented_by`). -/
+
+def Table.allocE (t : Table α) : Table α × Except Fault Nat :=
+  let i := firstFree (rd t.occs) (t.lastIndex + 1 - t.minFree) t.minFree
+  if i ≥ t.vals.size then (t, .error .storageFull) else
+  ({ t with occs := wr t.occs i true, minFree := i + 1, realSize := t.realSize + 1,
+            lastIndex := if i > t.lastIndex then i else t.lastIndex }, .ok i)
+
+def Table.addE (t : Table α) (v : α) : Table α × Except Fault Nat :=
+  match t.allocE with
+  | (t1, .error e) => (t1, .error e)
+  | (t1, .ok i) => ({ t1 with vals := wr t1.vals i v, nxs := wr t1.nxs i 0 }, .ok i)
+
+def Table.putLoopE (t : Table α) (v : α) : Nat → Nat → Table α × Except Fault Nat
+  | 0, _ => (t, .error .outOfFuel)
+  | fuel + 1, idx =>
+    if idx = 0 then (t, .error .assertion) else
+    if rd t.vals idx = v then (t, .ok idx) else
+    if rd t.nxs idx = 0 then
+      match t.addE v with
+      | (t1, .error e) => (t1, .error e)
+      | (t1, .ok i) => (t1.setNext idx i, .ok i)
+    else t.putLoopE v fuel (rd t.nxs idx)
+
+def Table.putE (t : Table α) (v : α) : Table α × Except Fault Nat :=
+  let b := t.bucketIndex v
+  let idx := rd t.buckets b
+  if idx = 0 then
+    match t.addE v with
+    | (t1, .error e) => (t1, .error e)
+    | (t1, .ok i) => (t1.setBucket b i, .ok i)
+  else t.putLoopE v t.vals.size idx
+
+set_option linter.unusedSectionVars false
+
+/-- what `putE` must return, in terms of `put` -/
+def Table.handBack (t : Table α) (r : Except Fault (Table α × Nat)) : Table α × Except Fault Nat :=
+  match r with
+  | .error e => (t, .error e)
+  | .ok (t', i) => (t', .ok i)
+
+omit [DecidableEq α] [MyHash α] in
+theorem Table.allocE_eq (t : Table α) : t.allocE = t.handBack t.alloc := by
+  unfold Table.allocE Table.alloc Table.allocAt Table.handBack
+  by_cases h : firstFree (rd t.occs) (t.lastIndex + 1 - t.minFree) t.minFree ≥ t.vals.size
+  · simp only [h, if_true]
+  · simp only [h, if_false]
+
+omit [DecidableEq α] [MyHash α] in
+theorem Table.addE_eq (t : Table α) (v : α) : t.addE v = t.handBack (t.add v) := by
+  unfold Table.addE Table.add
+  rw [Table.allocE_eq]
+  unfold Table.handBack
+  cases t.alloc with
+  | error e => rfl
+  | ok p => rfl
+
+theorem Table.putLoopE_eq (t : Table α) (v : α) (fuel idx : Nat) :
+    t.putLoopE v fuel idx = t.handBack (t.putLoop v fuel idx) := by
+  induction fuel generalizing idx with
+  | zero => rfl
+  | succ n ih =>
+    unfold Table.putLoopE Table.putLoop
+    by_cases h0 : idx = 0
+    · simp only [h0, if_true]; rfl
+    · simp only [h0, if_false]
+      by_cases h1 : rd t.vals idx = v
+      · simp only [h1, if_true]; rfl
+      · simp only [h1, if_false]
+        by_cases h2 : rd t.nxs idx = 0
+        · simp only [h2, if_true]
+          rw [Table.addE_eq]
+          unfold Table.handBack
+          cases t.add v with
+          | error e => rfl
+          | ok p => rfl
+        · simp only [h2, if_false]
+          exact ih _
+
+theorem Table.putE_eq (t : Table α) (v : α) : t.putE v = t.handBack (t.put v) := by
+  unfold Table.putE Table.put
+  by_cases h0 : rd t.buckets (t.bucketIndex v) = 0
+  · simp only [h0, if_true]
+    rw [Table.addE_eq]
+    unfold Table.handBack
+    cases t.add v with
+    | error e => rfl
+    | ok p => rfl
+  · simp only [h0, if_false]
+    exact Table.putLoopE_eq t v _ _
+
 end P
